@@ -1,9 +1,9 @@
 (* C13 - redefining the objective on the fly acts as a restart on the new objective.
    Restates Proofs/DriverInert.ident_run, Proofs/DriverFilter.filter_spec and accept_step_upd_shape. *)
-From LBFGSB Require Generated.FilterGen Generated.BfgsMem.
+From LBFGSB Require Generated.FilterGen Generated.BfgsMem Generated.LoopControl.
 From Coq Require Import List ZArith Bool String Lia Floats.PrimFloat.
 From LBFGSB Require Import Base.Res Base.Sim Model.SF Model.FloatVec Model.Driver Generated.Memory Generated.StopTests
-  Proofs.DriverMemory Proofs.DriverInert Proofs.DriverFilter.
+  Proofs.DriverMemory Proofs.DriverInert Proofs.DriverFilter Proofs.DriverShape Proofs.DriverUpdateRestart.
 Import ListNotations.
 Open Scope Z_scope.
 
@@ -52,10 +52,80 @@ Theorem C13_filter_source :
    "return (_X, _G)"]%string.
 Proof. reflexivity. Qed.
 
-(* NOT proved: "the next iterate equals, up to rounding, the one obtained by restarting on the new objective from a checkpoint
-   holding the rewritten history" - it relates the state after update + filter + memory update with what initialize_X_and_G
-   rebuilds from differences, which is exact only in exact arithmetic, and it needs the matrices to be rebuilt even when the
-   newest pair is rejected (is_force_update=False keeps the old ones: Q1 of DESIGN.md).  It is explored by the search. *)
+(* 4. THE UPDATE ACTS AS A RESTART.  After the update function has answered at an iteration, the run goes on from exactly the
+      state with which a restarted run - another user U' without update function (the new objective), another configuration c'
+      with the same eps_SY and maxcor - enters its loop, when the checkpoint of that restart carries the iteration count and its
+      differences rebuild the rewritten, filtered history (X1, G2) exactly.  That last hypothesis is the one of C06: it holds
+      over any abelian group (C06_restore_exact) and in binary64 up to the rounding of x - cumsum(sk), which is the "up to
+      rounding" of the property.  Everything else agrees exactly: which points survive the filter, the new point with the
+      values the function returned for it, the matrices (rebuilt from the filtered history even when the new pair is rejected,
+      reset when a single point is left - what a restart does), the iteration counter.  The two states differ in the message
+      placeholder and in the function wrapper only; from equal states the loops take equal steps (C06_restart_continues). *)
+Theorem C13_update_is_restart : forall K U c U' c' u ck ft s a d t1 s1 tr,
+  u_upd U = Some u -> u_upd U' = None -> checkpoint c' = Some ck -> eps_sy c' = eps_sy c -> maxcor c' = maxcor c ->
+  s_X s <> [] ->
+  accept_step U K c ft s a d t1 = (Ok (true, s1), tr) ->
+  exists f0 g f1 fo g1 G1 X1 G2,
+    In (EvUpd (s_x s1) f0 (s_f s) g (s_X s) (s_G s) (Ok (f1, fo, g1, G1))) tr /\
+    filter_mem K c (s_X s) G1 = (X1, G2) /\ s_f s1 = f1 /\ s_g s1 = g1 /\
+    (r_nit ck = s_nit s + 1 -> restore c' ck = (X1, G2) ->
+     forall t3, DriverShape.first_state U' K c' (s_x s1) (s_f s1) (s_g s1) (snd (DriverShape.restored c')) t3
+                = mklst (s_x s1) (s_f s1) (s_g s1) (s_X s1) (s_G s1) (s_mats s1) (s_nit s1) MStart false 2 t3).
+Proof. intros K U c U' c' u ck ft s a d t1 s1 tr H1 H2 H3 H4 H5. exact (DriverUpdateRestart.update_is_restart K U c U' c' u ck H1 H2 H3 H4 H5 ft s a d t1 s1 tr). Qed.
+
+(* the hypotheses are met: x^2 on [-5, 5] from x = 1, an update function that doubles the objective (values, gradients, stored
+   gradients), the step to x = 1/2; the restart minimises 2 x^2 from the result of that iteration *)
+Definition updE (x : vec) (f fo : float) (g : vec) (X G : list vec) : res (float * float * vec * list vec) :=
+  Res.Ok (mul 2 f, mul 2 fo, map (mul 2) g, map (map (mul 2)) G)%float.
+Definition UU : user :=
+  mkuser (fun x => Res.Ok (mul (hd 0%float x) (hd 0%float x))) (fun x => Res.Ok [mul 2%float (hd 0%float x)]) None (Some updE) None
+         (Res.Ok 0%float) (Res.Ok 0%float) false (fun _ => []) (fun _ _ _ => Res.Ok []).
+Definition U2 : user :=
+  mkuser (fun x => Res.Ok (mul 2 (mul (hd 0%float x) (hd 0%float x)))) (fun x => Res.Ok [mul 4%float (hd 0%float x)]) None None None
+         (Res.Ok 0%float) (Res.Ok 0%float) false (fun _ => []) (fun _ _ _ => Res.Ok []).
+Definition KU : kern :=
+  mkkern (fun x _ _ _ => map (fun v => mul v 0.5%float) x) (fun _ _ => (1%float, TConv)) (fun a b => mul (hd 0%float a) (hd 0%float b)).
+Definition cU (x0 : float) (ck : option result) : cfg :=
+  mkcfg [x0] [(-5)%float] [5%float] 3 None 0%float (TolConst 0x1.0c6f7a0b5ed8dp-20%float) 10 100 20 1e8%float
+        0x1.0624dd2f1a9fcp-10%float 0x1.ccccccccccccdp-1%float 0x1.999999999999ap-4%float 0x1.fb4c5b3a1b5bcp-53%float ck.
+Definition sU0 : lst :=
+  DriverShape.first_state UU KU (cU 1%float None) [1%float] 1%float [2%float] [] (SF.mk _ _ _ _ [1%float] (Some 1%float) (Some [2%float]) 1 1 fone).
+Example C13_update_is_restart_example :
+  exists s1 tr, accept_step UU KU (cU 1%float None) None sU0 1%float [(-0.5)%float] (s_sf sU0) = (Res.Ok (true, s1), tr) /\
+    s_X sU0 <> [] /\
+    let ck := snapshot s1 1 in let c' := cU 0.5%float (Some ck) in
+    r_nit ck = s_nit sU0 + 1 /\
+    filter_mem KU (cU 1%float None) (s_X sU0) [[4%float]] = ([[1%float]], [[4%float]]) /\
+    restore c' ck = ([[1%float]], [[4%float]]) /\
+    s_X s1 = [[1%float]; [0.5%float]] /\ s_G s1 = [[4%float]; [2%float]] /\ s_f s1 = 0.5%float /\
+    s_mats s1 = Some ([[1%float]; [0.5%float]], [[4%float]; [2%float]]) /\
+    forall t3, DriverShape.first_state U2 KU c' (s_x s1) (s_f s1) (s_g s1) (snd (DriverShape.restored c')) t3
+               = mklst (s_x s1) (s_f s1) (s_g s1) (s_X s1) (s_G s1) (s_mats s1) (s_nit s1) MStart false 2 t3.
+Proof.
+  eexists. eexists. split; [vm_compute; reflexivity|]. split; [vm_compute; discriminate|]. cbv zeta.
+  split; [vm_compute; reflexivity|]. split; [vm_compute; reflexivity|]. split; [vm_compute; reflexivity|].
+  split; [vm_compute; reflexivity|]. split; [vm_compute; reflexivity|]. split; [vm_compute; reflexivity|]. split; [vm_compute; reflexivity|].
+  intros t3. vm_compute. reflexivity.
+Qed.
+
+(* TRANSLATION TIE for the rebuild rule on which (4) rests: the `is_force_update` argument of the two calls of
+   update_lbfgs_matrices and the test of the reset `mats = LBFGSB_MATRICES(n)`, translated from main.py on every run
+   (Generated/LoopControl.v), are the booleans of the model's accept_step / first_state; the pinned tree (is_force_update=False)
+   and seeded variants that drop the rebuild do not give these terms. *)
+Theorem C13_rebuild_rule_from_source : forall (filt : bool) (X : list vec),
+  LoopControl.force_update filt X = (filt && (1 <? List.length X)%nat) /\
+  LoopControl.reset_matrices filt X = (filt && (List.length X =? 1)%nat) /\
+  LoopControl.force_update_at_start X = (1 <? List.length X)%nat.
+Proof. intros. repeat split; reflexivity. Qed.
+Theorem C13_rebuild_rule_in_model : forall U K c u ft s a d t1 s1 tr, u_upd U = Some u ->
+  accept_step U K c ft s a d t1 = (Ok (true, s1), tr) ->
+  exists g1 X1 G2, (s_X s1, s_G s1, s_mats s1) =
+    update_mem_f K c (LoopControl.force_update true X1) (s_x s1) g1 X1 G2 (if LoopControl.reset_matrices true X1 then None else s_mats s).
+Proof.
+  intros U K c u ft s a d t1 s1 tr Hu H.
+  destruct (accept_step_upd_shape U K c u ft s a d t1 true s1 tr Hu H) as (f0 & g & f1 & fo & g1 & G1 & X1 & G2 & _ & _ & _ & _ & [[Hc _]|[_ Hs]]); [discriminate|].
+  exists g1, X1, G2. exact Hs.
+Qed.
 
 (* TRANSLATION TIE: the curvature filter bfgsmats.make_X_and_G_respect_strong_wolfe - the backwards walk
      for i in range(ncor): k = ncor - i - 1; if not is_update_X_and_G(X[k], G[k], _X[0], _G[0], eps): (drop) else: appendleft
@@ -109,6 +179,7 @@ Qed.
 Print Assumptions C13_identity.
 Print Assumptions C13_filter_spec.
 Print Assumptions C13_pairs_rewritten.
+Print Assumptions C13_update_is_restart.
 
 (* Non-vacuity: a three-point history whose middle gradient is rewritten so that the pair it closes fails the test: the middle
    point is dropped, the newest point stays, the bridging pair passes. *)
